@@ -29,6 +29,9 @@ Objective(inst, sol) == 0 - CycleLen(inst.D, <<0>> \o sol)
 Pointless(inst, pre, a) == a = 0 /\ Prev(pre) = 0
 
 StepBound(inst) == 2 * inst.N + 1
+PadNeeded(inst) == TRUE            \* variable-length episodes: finished rows are stepped on
+StepOK(inst, pre, st)  == TRUE     \* no bookkeeping beyond the mask is shown to the policy
+FinalOK(inst, sol, fin) == TRUE
 
 (* ------------------- PART 2: implementation model ----------------------- *)
 \* state of CVRPEnv: visited (incl. the depot bit), current_node, used_capacity
@@ -50,6 +53,8 @@ Done(inst, s) == s.visited = 0..inst.N            \* the depot bit is part of `d
 
 \* CVRPEnv._get_reward: depot prepended, roll(-1) closes the tour
 RewardM(inst, s, hist) == 0 - CycleLen(inst.D, <<0>> \o hist)
+
+ConfState(inst, s, st) == st.cur = s.cur /\ st.used = s.used /\ ToSetU(st.visited) = s.visited
 
 \* action used to pad a finished row / to close a solution that does not end at the depot
 PadAction(inst) == 0
